@@ -97,7 +97,8 @@ func ruleStateCommit(c *Ctx) []Obligation {
 	con = "the scratch dictionary is adopted only after the statement has been accepted"
 	c.ensureEffects()
 	adds := c.callsToDeep(parse, add)
-	var writers []ssa.CallInstruction
+	var writers []ssa.Instruction
+	var directWriters []ssa.Instruction
 	c.eachInstrDeep(parse, func(in ssa.Instruction) {
 		ci, isCI := in.(ssa.CallInstruction)
 		if !isCI {
@@ -117,6 +118,23 @@ func ruleStateCommit(c *Ctx) []Obligation {
 			}
 		}
 	})
+	// the registration may be written out in Parse itself: insertions into ms.typeDict's map
+	c.eachInstrDeep(parse, func(in ssa.Instruction) {
+		mu, isMU := in.(*ssa.MapUpdate)
+		if !isMU {
+			return
+		}
+		_, mf, mbase := loadedField(mu.Map)
+		if mf == nil || namedOf(mf.Type()) != nil {
+			return
+		}
+		if _, bf, _ := loadedField(mbase); bf == fTypeDict {
+			if ci, isCI := in.(ssa.Instruction); isCI {
+				directWriters = append(directWriters, ci)
+			}
+		}
+	})
+	writers = append(writers, directWriters...)
 	switch {
 	case len(adds) != 1:
 		obs = append(obs, undecided(R, con, c.Pos(parse.Pos()), fmt.Sprintf("%d add calls in Parse", len(adds))))
@@ -246,27 +264,85 @@ func ruleStateReset(c *Ctx) []Obligation {
 	// that dominate every other call in Process
 	reset := map[string]string{}
 	var registries []memoRegistry
-	firstCall := func() ssa.Instruction {
-		var first ssa.Instruction
-		for _, in := range proc.Blocks[0].Instrs {
-			if ci, ok := in.(ssa.CallInstruction); ok {
-				cal := ci.Common().StaticCallee()
-				if cal != nil && c.isRepoFn(cal) && !c.isPureReset(cal) && c.registryReset(cal) == nil {
-					first = in
-					break
-				}
+	// the first call of Process that is not itself a reset: the one that dominates every other such call
+	isRealCall := func(in ssa.Instruction) bool {
+		ci, ok := in.(ssa.CallInstruction)
+		if !ok {
+			return false
+		}
+		cal := ci.Common().StaticCallee()
+		return cal != nil && c.isRepoFn(cal) && !c.isPureReset(cal) && c.registryReset(cal) == nil
+	}
+	var realCalls []ssa.Instruction
+	eachInstr(proc, func(in ssa.Instruction) {
+		if isRealCall(in) {
+			realCalls = append(realCalls, in)
+		}
+	})
+	var firstCall ssa.Instruction
+	for _, cand := range realCalls {
+		all := true
+		for _, o := range realCalls {
+			if o != cand && !dominates(cand, o) {
+				all = false
 			}
 		}
-		return first
-	}()
-	for _, in := range proc.Blocks[0].Instrs {
-		if firstCall != nil && in == firstCall {
-			break
+		if all {
+			firstCall = cand
 		}
+	}
+	// the reset prefix: everything that happens before that call (loops included)
+	var prefix []ssa.Instruction
+	if firstCall != nil {
+		fb := firstCall.Block()
+		for _, b := range proc.Blocks {
+			if b == fb {
+				for _, in := range b.Instrs {
+					if in == firstCall {
+						break
+					}
+					prefix = append(prefix, in)
+				}
+				continue
+			}
+			if blockReaches(b, fb, nil) && !blockReaches(fb, b, nil) {
+				prefix = append(prefix, b.Instrs...)
+			}
+		}
+	} else {
+		prefix = append(prefix, proc.Blocks[0].Instrs...)
+	}
+	belowRecv := func(v ssa.Value) bool {
+		return derivesFrom(v, func(y ssa.Value) bool { return isParamN(proc, y, 0) })
+	}
+	for _, in := range prefix {
 		switch x := in.(type) {
 		case *ssa.Store:
-			if owner, f, base := fieldOf(x.Addr); f != nil && isParamN(proc, base, 0) {
-				if _, isMake := x.Val.(*ssa.MakeMap); isMake {
+			owner, f, base := fieldOf(x.Addr)
+			if f == nil {
+				continue
+			}
+			_, isMake := x.Val.(*ssa.MakeMap)
+			zero := isNilConst(x.Val)
+			switch {
+			case isParamN(proc, base, 0) && isMake:
+				reset[fieldKey(owner, f)] = c.InstrPos(x)
+			case belowRecv(base) && (isMake || zero):
+				// written out in place: either a field of a sub-object of the receiver (ms.typeDict.typeErrs = map…{}),
+				// or a memo cleared through a registry (for _, t := range ms.typeDict.resolvedTypes { t.YangType = nil })
+				var list *types.Var
+				backSlice(base, func(y ssa.Value) bool {
+					if ia, isIA := y.(*ssa.IndexAddr); isIA {
+						if _, lf, lbase := loadedField(ia.X); lf != nil && belowRecv(lbase) {
+							list = lf
+						}
+					}
+					return true
+				})
+				if list != nil && zero {
+					reset[fieldKey(owner, f)] = c.InstrPos(x)
+					registries = append(registries, memoRegistry{field: fieldKey(owner, f), list: list, resetFn: proc})
+				} else if list == nil {
 					reset[fieldKey(owner, f)] = c.InstrPos(x)
 				}
 			}
